@@ -2133,14 +2133,34 @@ class PE:
             sub.lam_depth = self.lam_depth + 10
             sub.closures = self.closures + [env]
             sub.purity = self.purity
-            try:
-                sm = sub.run_function(self.local_fdefs[f[1]], args=list(args), kwargs={k[1]: k[2] for k in kw})
-                r = effects_value(sm.effects)
-            except (Unsupported, RecursionError):
-                r = None
             fa_ = self.local_fdefs[f[1]].args
-            need_ = len(fa_.posonlyargs + fa_.args) - len(fa_.defaults)
-            if r is not None and need_ <= len(args) + len(kw) <= len(fa_.posonlyargs + fa_.args) and not fa_.vararg and not fa_.kwarg:
+            pnames_ = [x.arg for x in fa_.posonlyargs + fa_.args]
+            full_ = list(args)
+            kwd_ = {k[1]: k[2] for k in kw}
+            ok_ = not fa_.vararg and not fa_.kwarg and not fa_.kwonlyargs and len(full_) <= len(pnames_) and all(k_ in pnames_[len(full_):] for k_ in kwd_)
+            if ok_:
+                # every parameter gets a value here: positional, keyword, or the default (evaluated in the defining scope)
+                dflt_ = dict(zip(pnames_[len(pnames_) - len(fa_.defaults):], fa_.defaults))
+                for nm_ in pnames_[len(full_):]:
+                    if nm_ in kwd_:
+                        full_.append(kwd_[nm_])
+                    elif nm_ in dflt_:
+                        try:
+                            full_.append(self.ev(dflt_[nm_], env))
+                        except Unsupported:
+                            ok_ = False
+                            break
+                    else:
+                        ok_ = False
+                        break
+            r = None
+            if ok_:
+                try:
+                    sm = sub.run_function(self.local_fdefs[f[1]], args=full_)
+                    r = effects_value(sm.effects)
+                except (Unsupported, RecursionError):
+                    r = None
+            if r is not None:
                 return r
         if kw and f[0] == 'g' and getattr(self, 'sig_of', None) is not None and not any(k[1] == '**' for k in kw) \
                 and not any(a[0] == 'star' for a in args):
